@@ -372,6 +372,18 @@ class _NoTruth(object):
     def __bool__(self): raise ValueError('truth value is ambiguous')
 
 
+class _NoTruthEqT(object):
+    """the same, the refusal being a TypeError"""
+    def __eq__(self, other): return _NoTruthT()
+    def __ne__(self, other): return _NoTruthT()
+    __hash__ = object.__hash__
+    def __repr__(self): return 'NOTRUTHT'
+
+
+class _NoTruthT(object):
+    def __bool__(self): raise TypeError('no truth value')
+
+
 def _sigdata(sig):
     return tuple((p.name, p.kind.name, 'EMPTY' if p.default is p.empty else repr(p.default)) for p in sig.parameters.values())
 
@@ -428,17 +440,20 @@ def rt_odd_defaults(req):
                 if v[0] != 'ok' or len(v[1][0]) != 1 or len(v[1][1]) != 1:
                     problems.append('odd-default-sort_callsigs: sort_callsigs with %s defaults -> %s' % (label, v if v[0] != 'ok' else (len(v[1][0]), len(v[1][1]))))
         if which in ('all', 'c07'):
-            src = ('from %s import _AnyEq, _NoTruthEq\nNT = _NoTruthEq()\nANY = _AnyEq()\ndef target(x, y=1, *, z=2): return x\n'
-                   'def two_sites(flag, own=NT, *args, **kwargs):\n    if flag:\n        return target(*args, **kwargs)\n    return target(*args, **kwargs)\n'
-                   'def two_sites_any(flag, own=ANY, *args, **kwargs):\n    if flag:\n        return target(*args, **kwargs)\n    return target(*args, **kwargs)\n') % __name__
+            body = '(flag, *args, own=%s, **kwargs):\n    if flag:\n        return target(*args, **kwargs)\n    return target(*args, **kwargs)\n'
+            src = ('from %s import _AnyEq, _NoTruthEq, _NoTruthEqT\nNT = _NoTruthEq()\nNTT = _NoTruthEqT()\nANY = _AnyEq()\ndef target(x, y=1, *, z=2): return x\n' % __name__ +
+                   'def two_sites' + body % 'NT' + 'def two_sites_t' + body % 'NTT' + 'def two_sites_any' + body % 'ANY' + 'def twin' + body % '7')
             mod, fname = progs.load_module(src)
             try:
-                for nm in ('two_sites', 'two_sites_any'):
+                want = _try(lambda: str(sigtools.signature(mod.twin)).replace('own=7', 'own=D'))
+                for nm, rep in (('two_sites', 'NOTRUTH'), ('two_sites_t', 'NOTRUTHT'), ('two_sites_any', 'ANYEQ')):
                     fobj = getattr(mod, nm)
-                    r = _try(lambda: str(sigtools.signature(fobj)))
+                    r = _try(lambda: str(sigtools.signature(fobj)).replace('own=' + rep, 'own=D'))
                     i = _try(lambda: str(inspect.signature(fobj)))
                     if i[0] == 'ok' and r[0] != 'ok':
                         problems.append('retrieval-raises: sigtools.signature(%s) raised %s although inspect.signature succeeds (a default with unusual == met at two forwarding call sites)' % (nm, r[1]))
+                    elif r != want:
+                        problems.append('odd-default-discovery: sigtools.signature(%s) = %s, of the twin with an ordinary default %s' % (nm, r, want))
             finally:
                 progs.unload(fname)
     return ('ok', tuple(problems[:6]), 'odd_defaults')
@@ -752,6 +767,11 @@ def make():
         @staticmethod
         @modifiers.kwoargs('b')
         def sk(a, b=1): return (a, b)
+        @modifiers.posoargs('a')
+        @staticmethod
+        def so(a, b=1): return (a, b)
+        @modifiers.posoargs('self', 'a')
+        def pm(self, a, b=1): return (a, b)
     return K
 @modifiers.kwoargs('k')
 def fn(x, *args, k=None, **kwargs): return target(*args, **kwargs)
@@ -777,6 +797,20 @@ def fn2(x, *args, k=None, **kwargs): return target(*args, **kwargs)
                     c = _try(lambda: getattr(holder, nm)(5))
                     if c != ('ok', (5, 1)):
                         problems.append('static-modifier-call: K.%s(5) through the %s -> %s' % (nm, hl, c))
+            inst = K1()
+            for what, obj, want, call in (("K.so (posoargs over staticmethod, through the class)", K1.so, '(a, /, b=1)', lambda o: o(5)),
+                                          ("K().so", inst.so, '(a, /, b=1)', lambda o: o(5)),
+                                          ("K.pm (fetched from the class: nothing is consumed)", K1.pm, '(self, a, /, b=1)', lambda o: o(inst, 5)),
+                                          ("K().pm", inst.pm, '(a, /, b=1)', lambda o: o(5))):
+                r = _try(lambda: str(inspect.signature(obj)))
+                if r != ('ok', want):
+                    problems.append('binding-consumes: %s advertises %s, expected %s' % (what, r, want))
+                c = _try(lambda: call(obj))
+                if c != ('ok', (5, 1)):
+                    problems.append('binding-consumes-call: %s called with a=5 -> %s' % (what, c))
+                kw = _try(lambda: obj(a=5) if 'K.pm' not in what else obj(inst, a=5))
+                if kw[0] != 'raised' or kw[1] != 'TypeError':
+                    problems.append('binding-consumes-call: %s accepts a= by name: %s' % (what, kw))
             before = str(sigtools.signature(mod.fn))
             modifiers.annotate(x=int)(mod.fn)
             modifiers.annotate(x=int)(mod.fn2)
@@ -827,12 +861,12 @@ def trace(wrapped, level, *args, **kwargs): return ('one', level, wrapped(*args,
 @trace
 def f1(a, b=1): return (a, b)
 @wrappers.decorator
-def trace(wrapped, *args, verbose=False, **kwargs): return ('two', verbose, wrapped(*args, **kwargs))
+def trace(wrapped, *args, verbose=False, **kwargs): return ('two', verbose, wrapped('conn', *args, **kwargs))
 @trace
-def f2(a, b=1): return (a, b)
+def f2(conn, a, b=1): return (conn, a, b)
 class K(object):
     @trace
-    def meth(self, a): return a
+    def meth(self, conn, a): return (conn, a)
 '''
     mod, fname = progs.load_module(src)
     problems = []
